@@ -250,3 +250,13 @@ Example limit_calls_prefix_row_proper :
   lg (FLimit 1 1 (FProj (PScan SFull))) = [CCursor; CSeek ""; CCursor; CSeek ""; CNext (Some "a"); CNext (Some "ab")]%string /\
   lg (FProj (PScan SFull)) = (lg (FLimit 1 1 (FProj (PScan SFull))) ++ [CNext (Some "b"); CNext None])%list%string.
 Proof. vm_compute. split; [repeat constructor|split; reflexivity]. Qed.
+
+(* call i of the limited run is call i of the unlimited run *)
+Theorem limit_calls_same_index :
+  forall (remember_end : bool) (flt : kvp -> bool) (gkey : kvp -> bytes) (B fuel : nat)
+         (start count : nat) (fp : fplan) (st : sstate) (i : nat) (c : scall),
+  List.length (sdata st) + fplan_keys fp < fuel ->
+  nth_error (slog (snd (ScanIO.run_stmt remember_end flt gkey B fuel RowMode (StSelect (FLimit start count fp)) st))) i = Some c ->
+  nth_error (slog (snd (ScanIO.run_stmt remember_end flt gkey B fuel RowMode (StSelect fp) st))) i = Some c.
+Proof. exact limit_calls_same_index_lemma. Qed.
+Print Assumptions limit_calls_same_index.
